@@ -87,6 +87,12 @@ def build_predictor(p):
         pred.n_obs = float(pred.n_obs) / 3.0 + 0.25
     elif p.get("n_obs_kind") == "npfrac":
         pred.n_obs = np.float64(pred.n_obs) / 3.0 + 0.25
+    if p.get("arr_kind") == "np":
+        # predictors built directly from NumPy input keep NumPy arrays (mutable) as state: a copy must not share them
+        for k in list(pred._state_variables):
+            v = getattr(pred, k, None)
+            if hasattr(v, "shape") and not isinstance(v, np.ndarray) and hasattr(v, "dtype") and np.ndim(v) > 0:
+                setattr(pred, k, np.array(v))
     if p.get("mu_kind") == "jnp":
         pred.mu = jnp.asarray(pred.mu)
     elif p.get("mu_kind") == "np":
@@ -702,6 +708,8 @@ def run(ctx, res):
     for i, cls in enumerate(CLASSES):
         for unc in (False, True):
             run_case(ctx, res, gen_pred(rng, cls, unc, derivs=(not quick) or (i, unc) in ((0, True), (4, False), (8, True))))
+        if i % 3 == 0:               # NumPy arrays as state (mutable): copy / round trips, no sharing
+            run_case(ctx, res, gen_pred(rng, cls, True, arr_kind="np"))
         if cls.endswith("Time"):     # the training size of a time-sensitive fit is a mean over time points: fractional
             run_case(ctx, res, gen_pred(rng, cls, False, n_obs_kind=["frac", "npfrac"][i % 2]))
     # --- legacy dicts
@@ -724,6 +732,8 @@ def run(ctx, res):
             kw["n_obs_kind"] = ["np", "frac", "npfrac"][i % 3]
         elif r < 0.4:
             kw["mu_kind"] = ["jnp", "np"][int(rng.integers(2))]
+        elif r < 0.55:
+            kw["arr_kind"] = "np"
         run_case(ctx, res, gen_pred(rng, cls, bool(rng.integers(2)), state=states[i % 4], derivs=(i % 7 == 3), **kw))
         i += 1
     res.count("sampled", i)
